@@ -422,14 +422,14 @@ def plan(prop, tier, seed, budget):
         )
     elif prop == 'C16':
         hs = ['map', 'vector', 'string', 'hash', 'mem', 'array']
-        jobs = [g7_jobs(h, 500 if q else 15000, workers=3 if q else 5, pair_max=12) for h in hs]
+        jobs = [g7_jobs(h, 4000 if q else 40000, workers=3 if q else 5, pair_max=24) for h in hs]
         P = dict(
             level='fault_enumeration',
             builds=[(h, 'asan') for h in hs],
             jobs=jobs,
             rule='evaluation = (script, fault set): scripts are generated allocation-heavy histories of the map, vector, string/wstring, hash, '
                  'unique/shared/weak pointer and array decoders; a fault-free run counts the script\'s N library allocation requests, then '
-                 'the script is re-run with every single ordinal failing, every suffix failing, every pair (N <= 12) and every triple (N <= 8). '
+                 'the script is re-run with every single ordinal failing, every suffix failing, every pair (N <= 24; longer scripts are rare and get singles and suffixes only) and every triple (N <= 10). '
                  'Oracle = the op that received a failed allocation shows its documented failure (map insert -1 + end iterator; reserve / '
                  'shrink_to_fit / hash resize quietly unchanged; vector and string growth aborts; unique/shared/array alloc leave the object '
                  'empty having dropped the old content), every other op and the rest of the script behave per the container\'s reference '
